@@ -189,6 +189,9 @@ def basin_definition_copy(src_h5file, dst_h5file, features_iter):
         # Load the basin information
         basin_dicts = RTDC_HDF5.basin_get_dicts_from_h5file(src_h5file)
         for bn in basin_dicts:
+            if bn["key"] != b_key:
+                # Only handle the basin definition stored under `b_key`.
+                continue
             if bn["type"] == "internal":
                 # Make sure we define the internal features selected
                 feat_used = [f for f in bn["features"] if f in features_iter]
